@@ -61,6 +61,27 @@ fn c01_calendar_years(lo: i64, hi: i64, out: &mut Out) {
           Some(b) => if b != sd { out.fail(format!("back:{}-{}-{}", y, m, d), format!("maps back to {}", b)); },
           None => out.fail(format!("back:{}-{}-{}", y, m, d), "panic".to_string()),
         }
+        // day of year, stepping by one day, difference, ordering against the neighbour
+        if sd.get_index_in_year() as i64 != n - spec::jdn(y, 1, 1) { out.fail(format!("doy:{}-{}-{}", y, m, d), format!("index in year {}", sd.get_index_in_year())); }
+        if n < 5373484 {
+          match guard(|| sd.next(1)) {
+            Some(nx) => {
+              let nn = spec::jdn(nx.get_year() as i64, nx.get_month() as i64, nx.get_day() as i64);
+              if nn != n + 1 || !spec::valid_date(nx.get_year() as i64, nx.get_month() as i64, nx.get_day() as i64) { out.fail(format!("next:{}-{}-{}", y, m, d), format!("next day is {}", nx)); }
+              if nx.subtract(sd) != 1 || sd.subtract(nx) != -1 || !sd.is_before(nx) || !nx.is_after(sd) || sd.is_after(nx) || nx.is_before(sd) || nx.next(-1) != sd { out.fail(format!("order:{}-{}-{}", y, m, d), "subtract / before / after / next(-1) disagree with the neighbour".into()); }
+            }
+            None => out.fail(format!("next:{}-{}-{}", y, m, d), "panic".into()),
+          }
+        }
+        if d == 1 {
+          let smo = sd.get_solar_month();
+          if smo.get_day_count() as i64 != spec::month_len(y, m) { out.fail(format!("monthlen:{}-{}", y, m), format!("{}", smo.get_day_count())); }
+          if m == 1 && (smo.get_solar_year().get_day_count() as i64 != spec::year_len(y) || smo.get_solar_year().is_leap() != spec::is_leap_civil(y)) { out.fail(format!("yearlen:{}", y), "year length / leap".into()); }
+          let far = (y * 7919 + m * 104729) % 3000000 - 1500000;
+          if n + far >= 1721424 && n + far <= 5373484 {
+            match guard(|| sd.next(far as isize)) { Some(f) => if spec::jdn(f.get_year() as i64, f.get_month() as i64, f.get_day() as i64) != n + far || f.subtract(sd) as i64 != far { out.fail(format!("far:{}-{}-{}", y, m, far), format!("{}", f)); }, None => out.fail(format!("far:{}-{}-{}", y, m, far), "panic".into()) }
+          }
+        }
       }
     }
     if y == lo { out.sample(format!("year {}: all 14x33 candidates", y)); }
